@@ -128,9 +128,16 @@ func monC04(c *ctx, w *hWorld, pre *worldSnap, sr *stepResult, hist []string) {
 		}
 		if exemptCall || bytes.Equal(addr, vmcommon.ESDTSCAddress) {
 			c.count("c04/exempt-change/" + state + "/" + cs.Fn)
-			if st.frozen[k] { // an exempt call may take the whole entry away: follow the storage from here on
+			// an exempt call may take the whole entry away (wipe, unfreeze, an NFT save at zero): follow the storage from here on - except
+			// for the four functions that only go through addToESDTBalance: flagged return-after-error they may debit a frozen entry, but a
+			// zero balance is kept as an entry that carries the flag (C03_fungible_functions_keep_frozen), so the account STAYS frozen
+			keepsFlag := cs.RAE && !(isSC && (cs.Fn == "ESDTWipe" || cs.Fn == "ESDTUnFreeze")) &&
+				(cs.Fn == "ESDTTransfer" || cs.Fn == "ESDTBurn" || cs.Fn == "ESDTLocalMint" || cs.Fn == "ESDTLocalBurn")
+			if st.frozen[k] && !keepsFlag {
 				nt := tkEntry(post, addr, suf)
 				st.frozen[k] = nt != nil && tkFrozenProps(nt.Properties)
+			} else if frozen && keepsFlag {
+				st.frozen[k] = true
 			}
 			continue
 		}
